@@ -1,4 +1,985 @@
+//! C15 — malformed proofs are rejected with an error, never a panic or a weaker circuit.
+//!
+//! Enumerated (fault_enumeration, engine E4): for every configuration (quick: a fixed cross-section,
+//! thorough: the whole `vpe4::catalogue()`), EVERY single structural fault of the honest object
+//!
+//! * proof tree (proof + public values + preprocessed commitment / batch common data): every array
+//!   popped / last element duplicated / emptied, every object member set to `null`, every `null`
+//!   filled, every structural integer (`degree_bits`, `log_arity`, `matrix_index`, `width`,
+//!   `matrix_to_instance`) ← −1, +1, 0, 63;
+//! * parameter set: every integer of `FriVerifierParams` ← −1, +1, 0, 63 — once alone (inconsistent
+//!   with the `StarkConfig`) and once together with the same field of the config's `FriParameters`
+//!   (consistent but wrong for the proof) —, `permutation_config` Some→None, and the config-only
+//!   FRI parameters `num_queries`, `max_log_arity`, MMCS `cap_height` ← −1, +1, 0, 63;
+//! * circuit-table proofs: every array / `Option` / integer / bool / enum variant of the
+//!   `BatchStarkProof` metadata (`table_packing`, `rows`, `alu_variant`, `ext_degree`, …).
+//!
+//! Each faulted object is deserialised back (failure = "not a proof", counted, skipped) and driven
+//! through the repository's real entry points, in this order, by the E4 engines:
+//! `*VerifierInputsBuilder::allocate` → `verify_p3_uni_proof_circuit` / `verify_batch_circuit` /
+//! `verify_p3_batch_proof_circuit` (which reach `verify_fri_circuit`) → `CircuitBuilder::build` →
+//! `pack_values` → `set_public/private_inputs` → `set_*_mmcs_private_data` → `run`.
+//!
+//! Oracle (the two clauses of the property statement):
+//! (a) no entry point PANICS (caught with `quiet_catch`) or ABORTS (integer and parameter faults run in
+//!     a child process of this binary under `ulimit -v`; a dead child = outcome "abort");
+//! (b) never a WEAKER circuit: if the circuit is returned and its run is `Ok` on the malformed object
+//!     while Plonky3's native verifier (same object, same parameters) returns `Err`, the circuit
+//!     checks less than the well-formed shape requires.
+//! A returned `Err` (at build time or at run time) is the expected behaviour.
+
+use std::collections::BTreeMap;
+use std::io::{BufRead, BufReader, Write};
+use std::process::{Command, Stdio};
+use std::sync::Mutex;
+use std::sync::atomic::{AtomicU64, Ordering};
+use std::sync::mpsc;
+use std::time::{Duration, Instant};
+
+use vpcore::rayon::prelude::*;
+use vpcore::serde_json::{self, Value, json};
+use vpcore::{Ctx, Histo, Report, finish, machinery_error};
+use vpe4::tree::{Path, get, get_mut};
+use vpe4::{
+    Fixture, FriSpec, FvpSpec, ParamOverride, StructFault, Verdict, apply_struct_fault, catalogue, class_string, leaves,
+    parse_path, path_string, struct_faults,
+};
+
+// ---------------------------------------------------------------------------------------------
+// cases
+
+/// Quick-tier cross-section: uni-STARK Fibonacci, uni-STARK with a preprocessed trace and a longer
+/// final polynomial / higher arity, batch with local+global lookups and preprocessed columns (cap
+/// height 1), and a circuit-table batch proof (with `BatchStarkProof` metadata).
+const QUICK: &[&str] = &[
+    "babybear_d4_p2w16/uni/fri/fib8/fri_testing",
+    "babybear_d4_p2w16/uni/fri/mul_prep/fri_b1_a2_f1",
+    "babybear_d4_p2w16/batch/fri/lookups_local_global/fri_testing_cap1",
+    "babybear_d4_p2w16/batch/fri/circuit_tables_arith10_d1/fri_testing",
+];
+
+const FVP_FIELDS: &[&str] = &["log_blowup", "log_final_poly_len", "commit_pow_bits", "query_pow_bits"];
+const CONFIG_ONLY_FIELDS: &[&str] = &["num_queries", "max_log_arity", "cap_height"];
+
+#[derive(Clone, Debug, PartialEq)]
+enum Scope {
+    /// only `FriVerifierParams` (inconsistent with the `StarkConfig`)
+    Fvp,
+    /// `FriVerifierParams` and the same field of the config's `FriParameters`
+    Both,
+    /// a `FriParameters` / MMCS field that `FriVerifierParams` does not carry
+    Config,
+}
+
+impl Scope {
+    fn tag(&self) -> &'static str {
+        match self {
+            Scope::Fvp => "fvp_only",
+            Scope::Both => "fvp+config",
+            Scope::Config => "config_only",
+        }
+    }
+    fn from_tag(s: &str) -> Option<Scope> {
+        Some(match s {
+            "fvp_only" => Scope::Fvp,
+            "fvp+config" => Scope::Both,
+            "config_only" => Scope::Config,
+            _ => return None,
+        })
+    }
+}
+
+/// A fault of a JSON tree: one of E4's structural faults, or a replaced scalar (bool / enum name).
+#[derive(Clone, Debug)]
+enum TFault {
+    S(StructFault),
+    Replace { path: Path, value: Value, tag: &'static str },
+}
+
+impl TFault {
+    fn path(&self) -> &Path {
+        match self {
+            TFault::S(f) => f.path(),
+            TFault::Replace { path, .. } => path,
+        }
+    }
+    /// fault kind without values: `int-1`, `int+1`, `int=0`, `int=63`, `pop`, `dup_last`, …
+    fn kind(&self, honest: &Value) -> String {
+        match self {
+            TFault::S(StructFault::IntSet(p, v)) => {
+                let old = get(honest, p).and_then(|x| x.as_u64()).unwrap_or(u64::MAX);
+                if *v + 1 == old {
+                    "int-1".into()
+                } else if *v == old.wrapping_add(1) {
+                    "int+1".into()
+                } else {
+                    format!("int={v}")
+                }
+            }
+            TFault::S(f) => f.tag(),
+            TFault::Replace { tag, .. } => tag.to_string(),
+        }
+    }
+    fn apply(&self, tree: &Value) -> Option<Value> {
+        match self {
+            TFault::S(f) => apply_struct_fault(tree, f),
+            TFault::Replace { path, value, .. } => {
+                let mut t = tree.clone();
+                *get_mut(&mut t, path)? = value.clone();
+                Some(t)
+            }
+        }
+    }
+    fn is_int(&self) -> bool {
+        matches!(self, TFault::S(StructFault::IntSet(..)))
+    }
+    fn to_json(&self) -> Value {
+        let p = path_string(self.path());
+        match self {
+            TFault::S(StructFault::Pop(_)) => json!({"k": "pop", "path": p}),
+            TFault::S(StructFault::DupLast(_)) => json!({"k": "dup_last", "path": p}),
+            TFault::S(StructFault::Empty(_)) => json!({"k": "empty", "path": p}),
+            TFault::S(StructFault::SetNull(_)) => json!({"k": "set_null", "path": p}),
+            TFault::S(StructFault::FillNull(_)) => json!({"k": "fill_null", "path": p}),
+            TFault::S(StructFault::IntSet(_, v)) => json!({"k": "int", "path": p, "v": v}),
+            TFault::Replace { value, tag, .. } => json!({"k": "replace", "path": p, "v": value, "tag": tag}),
+        }
+    }
+    fn from_json(v: &Value) -> Option<TFault> {
+        let p = parse_path(v["path"].as_str()?);
+        Some(match v["k"].as_str()? {
+            "pop" => TFault::S(StructFault::Pop(p)),
+            "dup_last" => TFault::S(StructFault::DupLast(p)),
+            "empty" => TFault::S(StructFault::Empty(p)),
+            "set_null" => TFault::S(StructFault::SetNull(p)),
+            "fill_null" => TFault::S(StructFault::FillNull(p)),
+            "int" => TFault::S(StructFault::IntSet(p, v["v"].as_u64()?)),
+            "replace" => TFault::Replace {
+                path: p,
+                value: v["v"].clone(),
+                tag: match v["tag"].as_str()? {
+                    "toggle_bool" => "toggle_bool",
+                    _ => "swap_variant",
+                },
+            },
+            _ => return None,
+        })
+    }
+}
+
+#[derive(Clone, Debug)]
+enum Case {
+    /// fault of the proof tree
+    Tree(TFault),
+    /// one parameter ← value
+    Param { scope: Scope, field: String, value: u64 },
+    /// `FriVerifierParams::permutation_config` Some → None
+    NoMmcs,
+    /// fault of the `BatchStarkProof` metadata (circuit-table fixtures)
+    Meta(TFault),
+}
+
+fn rel(old: u64, new: u64) -> String {
+    if new + 1 == old {
+        "-1".into()
+    } else if new == old + 1 {
+        "+1".into()
+    } else {
+        format!("={new}")
+    }
+}
+
+impl Case {
+    fn to_json(&self) -> Value {
+        match self {
+            Case::Tree(f) => json!({"t": "tree", "f": f.to_json()}),
+            Case::Meta(f) => json!({"t": "meta", "f": f.to_json()}),
+            Case::Param { scope, field, value } => json!({"t": "param", "scope": scope.tag(), "field": field, "v": value}),
+            Case::NoMmcs => json!({"t": "no_mmcs"}),
+        }
+    }
+    fn from_json(v: &Value) -> Option<Case> {
+        Some(match v["t"].as_str()? {
+            "tree" => Case::Tree(TFault::from_json(&v["f"])?),
+            "meta" => Case::Meta(TFault::from_json(&v["f"])?),
+            "param" => Case::Param {
+                scope: Scope::from_tag(v["scope"].as_str()?)?,
+                field: v["field"].as_str()?.to_string(),
+                value: v["v"].as_u64()?,
+            },
+            "no_mmcs" => Case::NoMmcs,
+            _ => return None,
+        })
+    }
+    /// Integer-valued faults may make the code under test allocate without bound or loop for
+    /// 2^63 steps: they run in a child process under a memory limit and a watchdog.
+    fn needs_worker(&self) -> bool {
+        match self {
+            Case::Tree(f) | Case::Meta(f) => f.is_int(),
+            Case::Param { .. } | Case::NoMmcs => true,
+        }
+    }
+    /// Fault class: kind + path with indices abstracted, no values.
+    fn class(&self, fx: &Fixture) -> String {
+        match self {
+            Case::Tree(f) => format!("{}@{}", f.kind(&fx.honest), class_string(f.path())),
+            Case::Meta(f) => format!("meta:{}@{}", f.kind(&fx.extra["bsp_json"]), class_string(f.path())),
+            Case::Param { scope, field, value } => {
+                let old = fri_field(&fx.desc["fri"], field);
+                format!("param:{}:{}{}", scope.tag(), field, rel(old, *value))
+            }
+            Case::NoMmcs => "param:fvp_only:permutation_config=None".into(),
+        }
+    }
+    fn show(&self) -> String {
+        match self {
+            Case::Tree(f) => format!("{} {}", f.to_json()["k"].as_str().unwrap_or(""), path_string(f.path())) + &f.to_json().get("v").map(|v| format!(" <- {v}")).unwrap_or_default(),
+            Case::Meta(f) => format!("metadata {} {}", f.to_json()["k"].as_str().unwrap_or(""), path_string(f.path())) + &f.to_json().get("v").map(|v| format!(" <- {v}")).unwrap_or_default(),
+            Case::Param { scope, field, value } => format!("{} {} <- {}", scope.tag(), field, value),
+            Case::NoMmcs => "FriVerifierParams.permutation_config <- None".into(),
+        }
+    }
+}
+
+fn fri_field(fri: &Value, field: &str) -> u64 {
+    fri[field].as_u64().unwrap_or_else(|| machinery_error(&format!("fixture desc has no fri.{field}")))
+}
+
+fn fri_spec_of(fri: &Value) -> FriSpec {
+    let g = |k: &str| fri_field(fri, k) as usize;
+    FriSpec {
+        tag: "c15_override",
+        log_blowup: g("log_blowup"),
+        log_final_poly_len: g("log_final_poly_len"),
+        max_log_arity: g("max_log_arity"),
+        num_queries: g("num_queries"),
+        commit_pow_bits: g("commit_pow_bits"),
+        query_pow_bits: g("query_pow_bits"),
+        cap_height: g("cap_height"),
+    }
+}
+
+fn set_fri_field(fs: &mut FriSpec, field: &str, v: usize) {
+    match field {
+        "log_blowup" => fs.log_blowup = v,
+        "log_final_poly_len" => fs.log_final_poly_len = v,
+        "max_log_arity" => fs.max_log_arity = v,
+        "num_queries" => fs.num_queries = v,
+        "commit_pow_bits" => fs.commit_pow_bits = v,
+        "query_pow_bits" => fs.query_pow_bits = v,
+        "cap_height" => fs.cap_height = v,
+        _ => machinery_error(&format!("unknown FRI field {field}")),
+    }
+}
+
+fn set_fvp_field(f: &mut FvpSpec, field: &str, v: usize) {
+    match field {
+        "log_blowup" => f.log_blowup = v,
+        "log_final_poly_len" => f.log_final_poly_len = v,
+        "commit_pow_bits" => f.commit_pow_bits = v,
+        "query_pow_bits" => f.query_pow_bits = v,
+        _ => machinery_error(&format!("unknown FriVerifierParams field {field}")),
+    }
+}
+
+fn int_values(u: u64) -> Vec<u64> {
+    let mut vals = vec![];
+    if u > 0 {
+        vals.push(u - 1);
+    }
+    for v in [u + 1, 0, 63] {
+        if v != u && !vals.contains(&v) {
+            vals.push(v);
+        }
+    }
+    vals
+}
+
+/// Every single fault of the `BatchStarkProof` metadata. `proof` and `stark_common` are left out:
+/// they are the tree's `proof` / `common` (already enumerated as tree faults).
+fn meta_faults(bsp: &Value) -> Vec<TFault> {
+    let mut view = bsp.clone();
+    if let Some(m) = view.as_object_mut() {
+        m.remove("proof");
+        m.remove("stark_common");
+    }
+    let mut out: Vec<TFault> = struct_faults(&view, false)
+        .into_iter()
+        .filter(|f| !matches!(f, StructFault::IntSet(..)))
+        .map(TFault::S)
+        .collect();
+    // every number in the metadata is a count / size / degree (w_binomial is `null` for D = 1)
+    for l in leaves(&view) {
+        for v in int_values(l.value) {
+            out.push(TFault::S(StructFault::IntSet(l.path.clone(), v)));
+        }
+    }
+    fn scalars(v: &Value, path: &mut Path, out: &mut Vec<TFault>) {
+        match v {
+            Value::Bool(b) => out.push(TFault::Replace { path: path.clone(), value: json!(!b), tag: "toggle_bool" }),
+            Value::String(s) => {
+                // the only enum in the metadata: `AirVariant::{Baseline, Optimized}`
+                for alt in ["Baseline", "Optimized", "NoSuchVariant"] {
+                    if alt != s {
+                        out.push(TFault::Replace { path: path.clone(), value: json!(alt), tag: "swap_variant" });
+                    }
+                }
+            }
+            Value::Array(a) => {
+                for (i, x) in a.iter().enumerate() {
+                    path.push(vpe4::Seg::Idx(i));
+                    scalars(x, path, out);
+                    path.pop();
+                }
+            }
+            Value::Object(m) => {
+                for (k, x) in m {
+                    path.push(vpe4::Seg::Key(k.clone()));
+                    scalars(x, path, out);
+                    path.pop();
+                }
+            }
+            _ => {}
+        }
+    }
+    scalars(&view, &mut vec![], &mut out);
+    out
+}
+
+fn all_cases(fx: &Fixture) -> Vec<Case> {
+    let mut cases: Vec<Case> = struct_faults(&fx.honest, false).into_iter().map(|f| Case::Tree(TFault::S(f))).collect();
+    let fri = &fx.desc["fri"];
+    for field in FVP_FIELDS {
+        for v in int_values(fri_field(fri, field)) {
+            cases.push(Case::Param { scope: Scope::Fvp, field: field.to_string(), value: v });
+            cases.push(Case::Param { scope: Scope::Both, field: field.to_string(), value: v });
+        }
+    }
+    cases.push(Case::NoMmcs);
+    for field in CONFIG_ONLY_FIELDS {
+        for v in int_values(fri_field(fri, field)) {
+            cases.push(Case::Param { scope: Scope::Config, field: field.to_string(), value: v });
+        }
+    }
+    if !fx.extra["bsp_json"].is_null() {
+        cases.extend(meta_faults(&fx.extra["bsp_json"]).into_iter().map(Case::Meta));
+    }
+    cases
+}
+
+// ---------------------------------------------------------------------------------------------
+// judging one case
+
+#[derive(Clone, Debug)]
+struct Judged {
+    native: Value,
+    native_tag: String,
+    circuit: Value,
+    circuit_tag: String,
+    /// entry point the circuit side stopped in
+    stage: String,
+    outcome: String,
+    /// panic location / message class (outcome == "panic")
+    panic_loc: String,
+    panic_line: String,
+}
+
+const BUILD_STAGES: &[&str] = &["allocate", "verify_circuit", "circuit_build"];
+
+/// `"/repo/recursion/src/pcs/fri/verifier.rs:944"` → (`recursion/src/pcs/fri/verifier.rs`, `944`):
+/// crate directory + path inside it, independent of where the repository / registry lives.
+fn split_loc(loc: &str) -> (String, String) {
+    let (file, line) = match loc.rsplit_once(':') {
+        Some((f, l)) if l.chars().all(|c| c.is_ascii_digit()) => (f, l),
+        _ => (loc, ""),
+    };
+    let short = match file.rfind("/src/") {
+        Some(i) => {
+            let start = file[..i].rfind('/').map(|j| j + 1).unwrap_or(0);
+            &file[start..]
+        }
+        None => file,
+    };
+    (short.to_string(), line.to_string())
+}
+
+/// panic message with every number replaced by `N` (values are not part of a key)
+fn msg_class(msg: &str) -> String {
+    let mut out = String::new();
+    let mut in_num = false;
+    for c in msg.chars() {
+        if c.is_ascii_digit() {
+            if !in_num {
+                out.push('N');
+            }
+            in_num = true;
+        } else {
+            in_num = false;
+            out.push(c);
+        }
+    }
+    out.chars().take(90).collect()
+}
+
+fn classify(n: &Verdict, c: &Verdict, stage: &str) -> Judged {
+    let outcome = if n.not_a_proof() || c.not_a_proof() {
+        "not_a_proof"
+    } else {
+        match c {
+            Verdict::Panic(_) => "panic",
+            Verdict::Reject(_) if BUILD_STAGES.contains(&stage) => "err",
+            Verdict::Reject(_) => "run_reject",
+            Verdict::Accept => match n {
+                Verdict::Accept => "ok+native_accept",
+                Verdict::Reject(_) => "ok+native_reject",
+                _ => "ok+native_panic",
+            },
+            Verdict::NotAProof(_) => "not_a_proof",
+        }
+    };
+    let (mut panic_loc, mut panic_line) = (String::new(), String::new());
+    if let Verdict::Panic(m) = c {
+        let (msg, loc) = m.rsplit_once(" @ ").unwrap_or((m.as_str(), ""));
+        let (file, line) = split_loc(loc);
+        panic_loc = format!("{file}:{}", msg_class(msg));
+        panic_line = line;
+    }
+    Judged {
+        native: n.to_json(),
+        native_tag: n.tag(),
+        circuit: c.to_json(),
+        circuit_tag: c.tag(),
+        stage: stage.to_string(),
+        outcome: outcome.to_string(),
+        panic_loc,
+        panic_line,
+    }
+}
+
+impl Judged {
+    fn to_json(&self) -> Value {
+        json!({"native": self.native, "native_tag": self.native_tag, "circuit": self.circuit, "circuit_tag": self.circuit_tag,
+               "stage": self.stage, "outcome": self.outcome, "panic_loc": self.panic_loc, "panic_line": self.panic_line})
+    }
+    fn from_json(v: &Value) -> Option<Judged> {
+        let s = |k: &str| v[k].as_str().map(|x| x.to_string());
+        Some(Judged {
+            native: v["native"].clone(),
+            native_tag: s("native_tag")?,
+            circuit: v["circuit"].clone(),
+            circuit_tag: s("circuit_tag")?,
+            stage: s("stage")?,
+            outcome: s("outcome")?,
+            panic_loc: s("panic_loc")?,
+            panic_line: s("panic_line")?,
+        })
+    }
+    fn dead_worker(how: &str) -> Judged {
+        Judged {
+            native: json!("unknown"),
+            native_tag: "unknown".into(),
+            circuit: json!({"abort": how}),
+            circuit_tag: format!("abort:{how}"),
+            stage: "unknown".into(),
+            outcome: "abort".into(),
+            panic_loc: String::new(),
+            panic_line: String::new(),
+        }
+    }
+}
+
+/// `None` = the fault does not apply to this object.
+fn judge(fx: &Fixture, case: &Case) -> Option<Judged> {
+    match case {
+        Case::Tree(f) => {
+            let t = f.apply(&fx.honest)?;
+            let n = fx.native_verify(&t);
+            if n.not_a_proof() {
+                return Some(classify(&n, &n, ""));
+            }
+            let (c, st) = fx.circuit_verify_fresh_staged(&t);
+            Some(classify(&n, &c, st))
+        }
+        Case::Param { .. } | Case::NoMmcs | Case::Meta(_) => {
+            let base = fri_spec_of(&fx.desc["fri"]);
+            let mut ov = ParamOverride::default();
+            match case {
+                Case::Param { scope, field, value } => {
+                    let v = *value as usize;
+                    if *scope != Scope::Config {
+                        let mut f = FvpSpec::of(&base);
+                        set_fvp_field(&mut f, field, v);
+                        ov.fvp = Some(f);
+                    }
+                    if *scope != Scope::Fvp {
+                        let mut fs = base.clone();
+                        set_fri_field(&mut fs, field, v);
+                        ov.config = Some(fs);
+                    }
+                }
+                Case::NoMmcs => {
+                    let mut f = FvpSpec::of(&base);
+                    f.mmcs = false;
+                    ov.fvp = Some(f);
+                }
+                Case::Meta(f) => ov.bsp_json = Some(f.apply(&fx.extra["bsp_json"])?),
+                Case::Tree(_) => unreachable!(),
+            }
+            match fx.verify_with_override(&fx.honest, &ov) {
+                Ok((n, c, st)) => Some(classify(&n, &c, st)),
+                Err(e) => machinery_error(&format!("{}: parameter override failed: {e}", fx.name)),
+            }
+        }
+    }
+}
+
+// ---------------------------------------------------------------------------------------------
+// child-process isolation
+
+fn fnv(s: &str) -> u64 {
+    let mut h: u64 = 0xcbf29ce484222325;
+    for b in s.bytes() {
+        h ^= b as u64;
+        h = h.wrapping_mul(0x100000001b3);
+    }
+    h
+}
+
+/// `c15 --worker <config>`: builds the fixture, prints `READY <hash of the honest tree>`, then for
+/// every JSON case line on stdin prints `START <i>` and `DONE <i> <json>`.
+fn worker_main(name: &str) -> ! {
+    vpcore::install_quiet_panic_hook();
+    let spec = vpe4::find_spec(name).unwrap_or_else(|| machinery_error(&format!("worker: unknown config {name}")));
+    let fx = (spec.make)().unwrap_or_else(|e| machinery_error(&format!("worker: {e}")));
+    let out = std::io::stdout();
+    println!("READY {:016x}", fnv(&fx.honest.to_string()));
+    let _ = out.lock().flush();
+    let stdin = std::io::stdin();
+    for line in stdin.lock().lines() {
+        let Ok(line) = line else { break };
+        let Some((idx, body)) = line.split_once(' ') else { continue };
+        let case = serde_json::from_str::<Value>(body).ok().and_then(|v| Case::from_json(&v));
+        let Some(case) = case else { machinery_error("worker: bad case line") };
+        println!("START {idx}");
+        let _ = out.lock().flush();
+        let r = match judge(&fx, &case) {
+            Some(j) => j.to_json(),
+            None => Value::Null,
+        };
+        println!("DONE {idx} {r}");
+        let _ = out.lock().flush();
+    }
+    std::process::exit(0);
+}
+
+struct WorkerCfg {
+    exe: std::path::PathBuf,
+    mem_kb: u64,
+    case_timeout: Duration,
+}
+
+/// Runs `cases` (index, case) of configuration `name` in child processes; a child that dies or
+/// hangs yields outcome "abort" for the case in flight and is replaced for the remaining cases.
+fn run_in_worker(w: &WorkerCfg, name: &str, honest_hash: u64, cases: &[(usize, Case)], deadline: &dyn Fn() -> bool) -> Vec<(usize, Option<Judged>)> {
+    let mut results: Vec<(usize, Option<Judged>)> = vec![];
+    let mut pos = 0usize;
+    while pos < cases.len() {
+        if deadline() {
+            break;
+        }
+        let mut child = Command::new("sh")
+            .arg("-c")
+            .arg(format!("ulimit -v {}; exec \"$0\" --worker \"$1\"", w.mem_kb))
+            .arg(&w.exe)
+            .arg(name)
+            .env("RAYON_NUM_THREADS", "2")
+            .stdin(Stdio::piped())
+            .stdout(Stdio::piped())
+            .stderr(Stdio::null())
+            .spawn()
+            .unwrap_or_else(|e| machinery_error(&format!("cannot spawn worker: {e}")));
+        let mut stdin = child.stdin.take().unwrap();
+        let stdout = child.stdout.take().unwrap();
+        let (tx, rx) = mpsc::channel::<String>();
+        let reader = std::thread::spawn(move || {
+            for line in BufReader::new(stdout).lines() {
+                let Ok(line) = line else { break };
+                if tx.send(line).is_err() {
+                    break;
+                }
+            }
+        });
+        // handshake (fixture build; generous: the machine is shared)
+        let ready = loop {
+            match rx.recv_timeout(Duration::from_secs(180)) {
+                Ok(l) if l.starts_with("READY ") => break Some(l[6..].to_string()),
+                Ok(l) if l.starts_with("MACHINERY-ERROR") => machinery_error(&format!("worker for {name}: {l}")),
+                Ok(_) => continue,
+                Err(_) => break None,
+            }
+        };
+        match ready {
+            Some(h) if h == format!("{honest_hash:016x}") => {}
+            Some(h) => machinery_error(&format!("worker for {name} proved a different honest object ({h})")),
+            None => machinery_error(&format!("worker for {name} did not become ready")),
+        }
+        let batch = &cases[pos..];
+        let mut payload = String::new();
+        for (i, c) in batch {
+            payload.push_str(&format!("{i} {}\n", c.to_json()));
+        }
+        // feed from a thread: a dying child must not block us on a full pipe
+        let feeder = std::thread::spawn(move || {
+            let _ = stdin.write_all(payload.as_bytes());
+            drop(stdin);
+        });
+        let mut in_flight: Option<usize> = None;
+        let mut died: Option<String> = None;
+        loop {
+            if pos >= cases.len() {
+                break;
+            }
+            match rx.recv_timeout(w.case_timeout) {
+                Ok(l) => {
+                    if let Some(i) = l.strip_prefix("START ") {
+                        in_flight = i.trim().parse().ok();
+                    } else if let Some(rest) = l.strip_prefix("DONE ") {
+                        let (i, body) = rest.split_once(' ').unwrap_or((rest, "null"));
+                        let i: usize = i.parse().unwrap_or_else(|_| machinery_error("worker: bad DONE line"));
+                        if i != cases[pos].0 {
+                            machinery_error("worker: results out of order");
+                        }
+                        let v: Value = serde_json::from_str(body).unwrap_or(Value::Null);
+                        results.push((i, if v.is_null() { None } else { Judged::from_json(&v) }));
+                        pos += 1;
+                        in_flight = None;
+                    } else if l.starts_with("MACHINERY-ERROR") {
+                        machinery_error(&format!("worker for {name}: {l}"));
+                    }
+                }
+                Err(mpsc::RecvTimeoutError::Timeout) => {
+                    let _ = child.kill();
+                    died = Some(format!("no answer within {} s (killed)", w.case_timeout.as_secs()));
+                    break;
+                }
+                Err(mpsc::RecvTimeoutError::Disconnected) => {
+                    let st = child.wait().ok();
+                    died = Some(match st {
+                        Some(s) => {
+                            use std::os::unix::process::ExitStatusExt;
+                            match (s.code(), s.signal()) {
+                                (_, Some(sig)) => format!("signal {sig}"),
+                                (Some(c), _) => format!("exit code {c}"),
+                                _ => "unknown".into(),
+                            }
+                        }
+                        None => "unknown".into(),
+                    });
+                    break;
+                }
+            }
+        }
+        let _ = child.kill();
+        let _ = child.wait();
+        let _ = feeder.join();
+        let _ = reader.join();
+        if pos < cases.len() {
+            match (died, in_flight) {
+                (Some(how), Some(i)) if i == cases[pos].0 => {
+                    results.push((i, Some(Judged::dead_worker(&how))));
+                    pos += 1;
+                }
+                (Some(how), _) => machinery_error(&format!("worker for {name} died between cases: {how}")),
+                (None, _) => {}
+            }
+        }
+    }
+    results
+}
+
+// ---------------------------------------------------------------------------------------------
+// verdict → report
+
+fn family(fx: &Fixture) -> String {
+    let stark = match fx.desc["stark"].as_str().unwrap_or("") {
+        "uni" => "uni",
+        "batch" => "batch",
+        _ => "batch_circuit_tables",
+    };
+    format!("{}/{}", stark, fx.desc["pcs"].as_str().unwrap_or("?"))
+}
+
+/// Violation key of a judged case, if it violates C15.
+fn violation_key(fx: &Fixture, case: &Case, j: &Judged) -> Option<(String, String)> {
+    let class = case.class(fx);
+    match j.outcome.as_str() {
+        "panic" => Some((
+            format!("panic|{}|{}|{}", j.stage, j.panic_loc, class),
+            format!(
+                "{}: {} makes entry point `{}` panic at {} line {} (native: {})",
+                fx.name,
+                case.show(),
+                j.stage,
+                j.panic_loc,
+                j.panic_line,
+                j.native_tag
+            ),
+        )),
+        "abort" => Some((
+            format!("abort|{}", class),
+            format!("{}: {} kills the process ({})", fx.name, case.show(), j.circuit_tag),
+        )),
+        "ok+native_reject" => {
+            // a parameter the circuit API does not receive cannot make *the circuit* weaker than the
+            // parameter set it was given; those cases are recorded, not judged (see assumptions)
+            if matches!(case, Case::Param { scope: Scope::Config | Scope::Fvp, .. } | Case::NoMmcs) {
+                return None;
+            }
+            Some((
+                format!("weaker|{}|{}", class, family(fx)),
+                format!(
+                    "{}: {} → verification circuit is built and its run is Ok, native verifier rejects ({})",
+                    fx.name,
+                    case.show(),
+                    j.native_tag
+                ),
+            ))
+        }
+        _ => None,
+    }
+}
+
+fn replay(ctx: &Ctx, path: &std::path::Path, w: &WorkerCfg) -> ! {
+    let r = vpcore::load_replay(path);
+    let cfg = r["config"].as_str().unwrap_or_else(|| machinery_error("replay: no config"));
+    let case = Case::from_json(&r["case"]).unwrap_or_else(|| machinery_error("replay: no case"));
+    let spec = vpe4::find_spec(cfg).unwrap_or_else(|| machinery_error(&format!("replay: unknown config {cfg}")));
+    let fx = (spec.make)().unwrap_or_else(|e| machinery_error(&e));
+    let j = if case.needs_worker() {
+        let h = fnv(&fx.honest.to_string());
+        run_in_worker(w, cfg, h, &[(0, case.clone())], &|| false).pop().and_then(|x| x.1)
+    } else {
+        judge(&fx, &case)
+    };
+    let report = Report::new();
+    let Some(j) = j else { machinery_error("replay: the fault does not apply") };
+    println!("replaying {cfg}: {} -> native {} | circuit {} at `{}` => {}", case.show(), j.native_tag, j.circuit_tag, j.stage, j.outcome);
+    if let Some((key, what)) = violation_key(&fx, &case, &j) {
+        report.violation(key, what, r.clone());
+    }
+    let cov = json!({"evaluations": 1, "distinct_nontrivial": 2, "rule": "replay of one stored case (native + circuit verdict)",
+                     "samples": [{"config": cfg, "case": case.to_json(), "judged": j.to_json()}], "replay": true});
+    finish(ctx, cov, vec![], &report)
+}
+
 fn main() {
-    eprintln!("MACHINERY-ERROR: check c15 not built yet");
-    std::process::exit(2);
+    let args: Vec<String> = std::env::args().collect();
+    if args.get(1).map(|s| s.as_str()) == Some("--worker") {
+        worker_main(args.get(2).map(|s| s.as_str()).unwrap_or(""));
+    }
+    let ctx = Ctx::from_args("C15", "fault_enumeration");
+    vpcore::install_quiet_panic_hook();
+    let w = WorkerCfg {
+        exe: std::env::current_exe().unwrap_or_else(|e| machinery_error(&format!("current_exe: {e}"))),
+        mem_kb: ctx.opt("worker_mem_kb").and_then(|s| s.parse().ok()).unwrap_or(8 * 1024 * 1024),
+        case_timeout: Duration::from_secs(ctx.opt("case_timeout_s").and_then(|s| s.parse().ok()).unwrap_or(120)),
+    };
+    if let Some(p) = &ctx.replay {
+        replay(&ctx, &p.clone(), &w);
+    }
+    let report = Report::new();
+    let outcomes = Histo::new();
+
+    let filter = ctx.opt("config").map(|s| s.to_string());
+    let mut specs: Vec<_> = catalogue()
+        .into_iter()
+        .filter(|s| match &filter {
+            Some(f) => s.name.contains(f.as_str()),
+            None => !ctx.quick() || QUICK.contains(&s.name.as_str()),
+        })
+        .collect();
+    // the quick cross-section first, so that a slow machine loses breadth at the tail
+    specs.sort_by_key(|s| QUICK.iter().position(|q| *q == s.name).unwrap_or(usize::MAX));
+    if specs.is_empty() {
+        machinery_error("no configuration selected");
+    }
+    if filter.is_none() {
+        for q in QUICK {
+            if !specs.iter().any(|s| s.name == *q) {
+                machinery_error(&format!("quick configuration {q} missing from the catalogue"));
+            }
+        }
+    }
+    let n_specs = specs.len();
+
+    // stage → outcome → n ; class → outcome → n
+    let by_stage: Mutex<BTreeMap<String, BTreeMap<String, u64>>> = Mutex::new(BTreeMap::new());
+    let by_class: Mutex<BTreeMap<String, BTreeMap<String, u64>>> = Mutex::new(BTreeMap::new());
+    let native_panics: Mutex<BTreeMap<String, u64>> = Mutex::new(BTreeMap::new());
+    let unjudged_param: Mutex<BTreeMap<String, u64>> = Mutex::new(BTreeMap::new());
+    let samples: Mutex<BTreeMap<String, Vec<Value>>> = Mutex::new(BTreeMap::new());
+    let mut per_config = vec![];
+    let (mut evaluations, mut nontrivial, mut planned_total, mut skipped_total, mut not_applicable) = (0u64, 0u64, 0u64, 0u64, 0u64);
+    let mut configs_done = 0usize;
+    let mut exhaustive = true;
+
+    for spec in specs {
+        if ctx.out_of_time() || (ctx.quick() && ctx.used() > 0.8) {
+            exhaustive = false;
+            break;
+        }
+        let t0 = Instant::now();
+        let fx = (spec.make)().unwrap_or_else(|e| machinery_error(&format!("cannot build fixture: {e}")));
+        let hn = fx.native_verify(&fx.honest);
+        if !hn.accepts() {
+            machinery_error(&format!("fixture {}: honest object not accepted natively ({})", fx.name, hn.tag()));
+        }
+        let (hc, hstage) = fx.circuit_verify_fresh_staged(&fx.honest);
+        // C01's known findings: two shapes whose honest proof the circuit rejects. Clause (a) is
+        // still meaningful there; clause (b) cannot fire.
+        let honest_note = if hc.accepts() { "accepted by both".to_string() } else { format!("native accepts, circuit {} at `{hstage}` (C01's finding; clause (b) vacuous here)", hc.tag()) };
+
+        let cases = all_cases(&fx);
+        planned_total += cases.len() as u64;
+        let indexed: Vec<(usize, Case)> = cases.iter().cloned().enumerate().collect();
+        let (wk, inproc): (Vec<_>, Vec<_>) = indexed.into_iter().partition(|(_, c)| c.needs_worker());
+        let ev = AtomicU64::new(0);
+        let nt = AtomicU64::new(0);
+        let na = AtomicU64::new(0);
+        let skipped = AtomicU64::new(0);
+        let cfg_out = Histo::new();
+
+        let record = |case: &Case, j: Option<Judged>| {
+            let Some(j) = j else {
+                na.fetch_add(1, Ordering::Relaxed);
+                return;
+            };
+            ev.fetch_add(1, Ordering::Relaxed);
+            outcomes.add(&j.outcome);
+            cfg_out.add(&j.outcome);
+            let class = case.class(&fx);
+            *by_stage.lock().unwrap().entry(if j.stage.is_empty() { "parse".into() } else { j.stage.clone() }).or_default().entry(j.outcome.clone()).or_default() += 1;
+            *by_class.lock().unwrap().entry(class.clone()).or_default().entry(j.outcome.clone()).or_default() += 1;
+            if j.native_tag.starts_with("reject") {
+                nt.fetch_add(1, Ordering::Relaxed);
+            }
+            if j.native_tag.starts_with("panic") {
+                *native_panics.lock().unwrap().entry(format!("{} @ {}", j.native_tag, class)).or_default() += 1;
+            }
+            let case_json = json!({"config": fx.name, "case": case.to_json(), "class": class, "judged": j.to_json()});
+            match violation_key(&fx, case, &j) {
+                Some((key, what)) => report.violation(key, what, case_json.clone()),
+                None => {
+                    if j.outcome == "ok+native_reject" {
+                        *unjudged_param.lock().unwrap().entry(format!("{class} (native {})", j.native_tag)).or_default() += 1;
+                    }
+                }
+            }
+            let mut s = samples.lock().unwrap();
+            let v = s.entry(j.outcome.clone()).or_default();
+            if v.len() < 2 {
+                v.push(case_json);
+            }
+        };
+
+        let h = fnv(&fx.honest.to_string());
+        std::thread::scope(|sc| {
+            // integer / parameter faults: child processes (a few in parallel), concurrently with
+            // the in-process sweep
+            let n_workers = (wk.len() / 24).clamp(1, 6);
+            let chunk = wk.len().div_ceil(n_workers).max(1);
+            let handles: Vec<_> = wk
+                .chunks(chunk)
+                .map(|part| {
+                    let (w, name, ctx) = (&w, fx.name.clone(), &ctx);
+                    sc.spawn(move || run_in_worker(w, &name, h, part, &|| ctx.out_of_time()))
+                })
+                .collect();
+            inproc.par_iter().for_each(|(_, case)| {
+                if ctx.out_of_time() {
+                    skipped.fetch_add(1, Ordering::Relaxed);
+                    return;
+                }
+                record(case, judge(&fx, case));
+            });
+            let mut got = 0usize;
+            for hdl in handles {
+                let rs = hdl.join().unwrap_or_else(|_| machinery_error("worker driver thread panicked"));
+                got += rs.len();
+                for (i, j) in rs {
+                    record(&cases[i], j);
+                }
+            }
+            skipped.fetch_add((wk.len() - got) as u64, Ordering::Relaxed);
+        });
+
+        let sk = skipped.load(Ordering::Relaxed);
+        if sk > 0 {
+            exhaustive = false;
+        }
+        skipped_total += sk;
+        evaluations += ev.load(Ordering::Relaxed);
+        nontrivial += nt.load(Ordering::Relaxed);
+        not_applicable += na.load(Ordering::Relaxed);
+        per_config.push(json!({
+            "config": fx.name, "family": family(&fx), "desc": fx.desc, "honest": honest_note,
+            "faults_planned": cases.len(), "in_process": inproc.len(), "in_child_process": wk.len(),
+            "evaluated": ev.load(Ordering::Relaxed), "native_rejects": nt.load(Ordering::Relaxed),
+            "fault_not_applicable": na.load(Ordering::Relaxed), "skipped_out_of_time": sk,
+            "outcomes": cfg_out.to_json(), "circuit_builds": fx.stats.to_json(), "wall_s": t0.elapsed().as_secs_f64(),
+        }));
+        configs_done += 1;
+        eprintln!(
+            "[C15] t={:.1}s {} cases={} (child {}) evaluated={} native_rejects={} {} {:.1}s",
+            ctx.elapsed_s(),
+            fx.name,
+            cases.len(),
+            wk.len(),
+            ev.load(Ordering::Relaxed),
+            nt.load(Ordering::Relaxed),
+            cfg_out.to_json(),
+            t0.elapsed().as_secs_f64()
+        );
+        vpcore::rayon::broadcast(|_| fx.release_thread_engine());
+        fx.release_thread_engine();
+    }
+    if configs_done < n_specs {
+        exhaustive = false;
+    }
+
+    let samples: Vec<Value> = samples.into_inner().unwrap().into_values().flatten().collect();
+    let cov = json!({
+        "evaluations": evaluations,
+        "distinct_nontrivial": nontrivial,
+        "rule": "one evaluation = one single-fault object (configuration × fault) that still deserialises, judged by the native \
+                 verifier AND driven through allocate → verify_*_circuit → build → pack_values → set inputs → set_*_mmcs_private_data → run; \
+                 distinct = distinct (configuration, fault); non-trivial = the native verifier REJECTS the object (so an `Ok` run of the \
+                 circuit would be a weaker circuit). Faults that no longer deserialise are counted under not_a_proof and are not evaluations' \
+                 non-trivial part",
+        "exhaustive": exhaustive,
+        "space": "configurations × every single structural fault: proof-tree arrays pop/dup_last/empty, object members → null, null → filled, \
+                  structural integers −1/+1/0/63; FriVerifierParams integers −1/+1/0/63 (alone and together with the config), permutation_config → None, \
+                  config-only num_queries/max_log_arity/cap_height −1/+1/0/63; BatchStarkProof metadata (circuit tables): arrays, options, every integer, bools, enum variant",
+        "configurations_planned": n_specs,
+        "configurations_done": configs_done,
+        "faults_planned": planned_total,
+        "faults_skipped_out_of_time": skipped_total,
+        "faults_not_applicable": not_applicable,
+        "outcome_histogram": outcomes.to_json(),
+        "outcomes_by_entry_point": *by_stage.lock().unwrap(),
+        "outcomes_by_fault_class": *by_class.lock().unwrap(),
+        "native_panics_recorded_not_judged": *native_panics.lock().unwrap(),
+        "circuit_ok_native_reject_not_judged(parameter_not_in_circuit_api_or_inconsistent_set)": *unjudged_param.lock().unwrap(),
+        "per_config": per_config,
+        "samples": samples,
+    });
+    let assumptions = vec![
+        "native Plonky3 0.6.3 verifiers (verify_with_preprocessed, verify_batch; BatchStarkProver::verify_all_tables for circuit-table proofs) define which malformed objects must not be accepted".to_string(),
+        "single faults only; integer fault values −1, +1, 0, 63".to_string(),
+        "clause (b) compares on the SAME parameter set: for parameter faults the native verifier is configured with the faulted value. Parameters the circuit API does not receive (num_queries, max_log_arity, cap height) and FriVerifierParams made inconsistent with the StarkConfig are judged under clause (a) only; their circuit-Ok/native-reject counts are reported".to_string(),
+        "circuit verdict = runner outcome on honestly packed inputs of the faulted object (pack_values + set_*_mmcs_private_data)".to_string(),
+        "panic keys use crate-relative file + message with numbers abstracted (no line numbers, no values); the line is given in the description".to_string(),
+        "build_next_layer_circuit (unified recursion API, examples-only glue) is not driven here (C17 owns it); verify_fri_circuit is reached through the PCS of all three verify_* entry points, not with hand-made arguments".to_string(),
+    ];
+    finish(&ctx, cov, assumptions, &report)
 }
